@@ -836,6 +836,9 @@ func specString(s cerSpec) string {
 		if strings.HasPrefix(en.kind, "vs-") && en.vendorFirst {
 			sb.WriteString("(vf)")
 		}
+		if en.typ2 != "" {
+			fmt.Fprintf(&sb, "+%s=%d", en.typ2, en.id2)
+		}
 	}
 	sb.WriteString("]}")
 	return sb.String()
